@@ -38,6 +38,17 @@ def cases(draw, tier="quick"):
     pool = nonconst or live
     k = draw(st.integers(1, min(3, len(pool))))
     chosen = []
+    # results that read a memory family *before* it was mutated are where "differentiate through the pre-mutation
+    # values" is decided: make sure one of them reaches L in half of the cases
+    stmts_ = b.prog["stmts"]
+    early = []
+    for i, s_ in enumerate(stmts_):
+        if s_["k"] == "op" and s_["h"] in pool and r.owner.get(s_["h"]) == s_["h"]:
+            fams = {r.owner.get(a) for a in s_["args"]}
+            if any(t_["k"] == "inplace" and t_["kind"] != "shape" and r.owner.get(t_["target"]) in fams for t_ in stmts_[i + 1:]):
+                early.append(s_["h"])
+    if early and draw(st.integers(0, 3)) > 0:
+        chosen.append(early[draw(st.integers(0, len(early) - 1))])
     for _ in range(k):
         h = b.pick(pool)
         if h not in chosen:
